@@ -353,6 +353,13 @@ def check_bookkeeping(chk, prog, env, model):
                         want_cl = (init & ~claim) if secs <= -1 else (init | claim)
                         want_ex = secs if claim == EXP else 7
                         want_nb = secs if claim == NBF else 9
+                        if secs <= -1:
+                            # switching a check off: the enable bit decides (the comparisons rule reads the leeway only under the bit);
+                            # what stays stored for the disabled claim is not observable
+                            if claim == EXP:
+                                want_ex = ex.v if isinstance(ex, Int) else None
+                            else:
+                                want_nb = nb.v if isinstance(nb, Int) else None
                         good = isinstance(rv, Int) and rv.v == 0 and cl.v == want_cl and ex.v == want_ex and nb.v == want_nb
                     else:
                         good = isinstance(rv, Int) and rv.v != 0 and cl.v == init and ex.v == 7 and nb.v == 9
